@@ -104,7 +104,7 @@ def cli_case(ctx, k):
     """At the command line: after -a ADAPTER no exact copy of the adapter remains; an error-free anchored adapter is removed exactly."""
     import os
     import shutil
-    from .. import climon, fastx, gen_cli as G
+    from .. import climon, fastx, gen_cli as G, refmodel as R
 
     rng = ctx.rng("c02cli", k)
     ad = G.rnd(rng, rng.randint(5, 16))
@@ -153,6 +153,15 @@ def cli_case(ctx, k):
                 pair = [flag, ("^" + dec) if mode == "prefix" else (dec + "$")]
                 argv = (argv + pair) if rng.random() < 0.5 else (pair + argv)
             ctx.count("cli_runs_with_several_anchored_adapters")
+        other_kind = []
+        if mode in ("prefix", "suffix") and rng.random() < 0.35:
+            # anchored adapters for the *other* end as company (grouping of anchored adapters must not lose the one under test)
+            for j in range(rng.randint(2, 3)):
+                dec = G.rnd(rng, rng.randint(18, 24))
+                other_kind.append(dec)
+                argv_pair = ["-a", dec + "$"] if mode == "prefix" else ["-g", "^" + dec]
+                argv = (argv + argv_pair) if rng.random() < 0.5 else (argv_pair + argv)
+            ctx.count("cli_runs_with_anchored_adapters_for_the_other_end")
         argv += ["-e", repr(rate), "-O", str(overlap), "-o", "out.fq"] + (["--no-indels"] if rng.random() < 0.3 else [])
         if rng.random() < 0.3:
             # an adapter file with its own parameters given first: they hold for the file only
@@ -176,6 +185,18 @@ def cli_case(ctx, k):
             if o is None:
                 ctx.violation("cli-read-missing", f"read {name} not written; argv={argv}", case)
                 continue
+            if other_kind:
+                # a chance occurrence of one of the adapters for the other end could win over the exact copy: not judged
+                kk = int(rate * 24) + 1
+                end_hit = False
+                for dec in other_kind:
+                    for L_ in range(max(1, len(dec) - kk), len(dec) + kk + 1):
+                        piece = s[-L_:] if mode == "prefix" else s[:L_]
+                        if len(piece) == L_ and R.edit_distance(dec, piece, lambda a, b: a == b) <= kk:
+                            end_hit = True
+                if end_hit:
+                    ctx.count("cli_reads_skipped_other_end_adapter_occurs")
+                    continue
             if musts.get(name) and len(o) >= len(s):
                 ctx.violation("missed-occurrence", f"read {s!r} {musts[name]} of -a {ad} but nothing was removed; argv={argv}", case, klass="cli-admissible")
             if mode == "back" and ad in o:
